@@ -78,6 +78,7 @@ Construct == IsEv("construct") /\ ~H.open
 (* handle is gone, and deleting the File afterwards neither raises nor closes again                                       *)
 FullClose == /\ IsEv("fullclose") /\ E.exc \in {"IOError", "noopen"} /\ E.delexc = "" /\ E.cleared = 1 /\ E.closes = 1
              /\ fs' = fs /\ disk' = disk /\ opens' = opens + (IF E.exc = "noopen" THEN 0 ELSE 1) /\ closes' = closes + (IF E.exc = "noopen" THEN 0 ELSE 1)
+ProcClose2 == IsEv("procclose2") /\ E.exc = "" /\ E.exc2 = "IOError" /\ E.delexc = "" /\ UNCHANGED <<fs, disk, opens, closes>>
 PrintEv == IsEv("print") /\ IF ~H.open THEN Refused
          ELSE /\ E.r = Len(Text(E.a))
               /\ Ok(With(fs, E.o, [H EXCEPT !.pos = WritePos(H, C) + Len(Text(E.a))]), [disk EXCEPT ![H.path] = Overwrite(@, WritePos(H, @), Text(E.a))], opens, closes)
@@ -89,7 +90,7 @@ ScanEv == IsEv("scan") /\ IF ~H.open THEN Refused
              /\ LET np == IF r[2] <= Len(C) /\ C[r[2]] = 32 THEN r[2] ELSE r[2] - 1 IN      \* the blank after the digits is consumed
                 Ok(With(fs, E.o, [H EXCEPT !.pos = np, !.eof = (np = Len(C)) \/ H.eof]), disk, opens, closes)   \* looking for more white space hits the end
 
-Next == Reset \/ End \/ New \/ Open \/ Write \/ Read \/ Seek \/ Tell \/ Eof \/ Flush \/ Close \/ WithBegin \/ Del \/ Destruct \/ Construct \/ FullClose \/ PrintEv \/ ScanEv
+Next == Reset \/ End \/ New \/ Open \/ Write \/ Read \/ Seek \/ Tell \/ Eof \/ Flush \/ Close \/ WithBegin \/ Del \/ Destruct \/ Construct \/ FullClose \/ ProcClose2 \/ PrintEv \/ ScanEv
 Spec == Init /\ [][Next]_vars
 Accepted == LET d == TLCGet("stats").diameter IN
             /\ PrintT(<<"TRACE_MATCHED", d - 1, Len(T)>>)
